@@ -193,6 +193,13 @@ func sexpEnd(s string, i int) int {
 	if i < len(s) && s[i] == '(' {
 		d := 0
 		for ; i < len(s); i++ {
+			if s[i] == '|' { // quoted symbol: may contain parentheses
+				i++
+				for i < len(s) && s[i] != '|' {
+					i++
+				}
+				continue
+			}
 			if s[i] == '(' {
 				d++
 			} else if s[i] == ')' {
